@@ -236,11 +236,16 @@ def h_chord_annotations(c):
     ts.numerator, ts.denominator = num, den
   else:
     B = c.params['B']
+    sps = c.params.get('sps')  # absolute quantization: beats carry steps
+    if sps:
+      seq.quantization_info.steps_per_second = sps
     bks = [c.int('beat%d_k' % i, 0, K) for i in range(B)]
     for bk in bks:
       ta = seq.text_annotations.add()
       ta.time = bk * 0.25
       ta.annotation_type = TA.BEAT
+      if sps:
+        ta.quantized_step = bk * (sps // 4)
   n_before = len(seq.text_annotations)
   chosen = []
 
@@ -258,8 +263,10 @@ def h_chord_annotations(c):
   def viterbi(chord_frame_loglik, unused_a, unused_b):
     path = []
     for f in range(len(chord_frame_loglik)):
-      key = c.choice('key%d' % f, [0, 7])
-      chord = c.choice('chord%d' % f, ['N.C.', (0, ''), (5, 'm')])
+      key = c.choice('key%d' % f, c.params.get('keys') or [0, 7])
+      chord = c.choice('chord%d' % f, [tuple(x) if isinstance(x, list) else x
+                                       for x in c.params.get('chords') or
+                                       ['N.C.', (0, ''), (5, 'm')]])
       path.append((key, chord))
     chosen.extend(path)
     return path
@@ -301,7 +308,8 @@ def h_chord_annotations(c):
               'no beats and not quantized: rejected')
       return
     frame_time = [Fraction(0)] + interior
-    frame_step = None
+    frame_step = ([int(t * c.params['sps']) for t in frame_time]
+                  if c.params.get('sps') else None)
     F = len(frame_time)
   c.check(err is None, 'no error for a sequence that can be annotated')
   c.check(len(chosen) == F, 'one key/chord decision per chord frame')
@@ -475,6 +483,9 @@ def jobs(tier):
   add('h_chord_annotations', mode='bars', K=4, spq=4, qpm=120, ts=[5, 4],
       cpb=None, add_keys=False)
   add('h_chord_annotations', mode='beats', K=4, B=0, add_keys=False)
+  # absolutely quantized sequence: beats (possibly duplicated) carry steps
+  add('h_chord_annotations', mode='beats', K=3, B=3, sps=4, add_keys=False,
+      keys=[0], chords=['N.C.', [0, '']], budget=900)
   add('h_melody_notes', N=1, K=3)
   add('h_melody_notes', N=2, K=3, budget=900)
   if tier == 'thorough':
